@@ -22,6 +22,13 @@ def meta_name(user, desc, ext):
     return 'unknown:%r/%r/%r' % (user[:10], desc[:10], ext)
 
 
+def _fn(x):
+    """a TLA+ function whose domain happens to be 1..n is printed (and parsed) as a sequence"""
+    if isinstance(x, tuple):
+        return {i + 1: v for i, v in enumerate(x)}
+    return dict(x)
+
+
 def diff(path, model, real, out, limit=6):
     """Structural diff; appends 'path: model=.. real=..' strings."""
     if len(out) >= limit:
@@ -356,12 +363,27 @@ class StorageReplayer:
         if self.kind == 'file':
             ul = st.undoLog(0, 1000)
             obs['ulog'] = tuple(T.model(base64.decodebytes(d['id'] + b'\n')) for d in ul)
+        if self.kind == 'file' and 'linv' in mo:
+            obs['linv'] = {n: tuple({'tid': T.model(t), 'oids': tuple(u64(o) for o in oids)} for t, oids in st.lastInvalidations(n))
+                           for n in mo['linv']}
+            ri = {}
+            for o in _fn(mo['riter']):
+                try:
+                    oid, tid, data, nxt = st.record_iternext(p64(o))
+                    ri[o] = {'k': 'rev', 'd': cz.datum_of(data), 'serial': T.model(tid), 'next': u64(nxt) if nxt is not None else -1}
+                    if u64(oid) != o:
+                        ri[o]['oid'] = u64(oid)
+                except KeyError:
+                    ri[o] = {'k': 'keyerr'}
+            obs['riter'] = ri
         obs['last'] = T.model(st.lastTransaction())
         obs['len'] = len(st)
         return obs
 
     def compare(self, model_obs, first=(), hist=None, ltid=None):
         mo = norm(model_obs)
+        if 'riter' in mo:
+            mo = dict(mo, riter=_fn(mo['riter']))
         if hist is not None and self.kind == 'file' and any(t['status'] == 'p' for t in hist):
             # Below a pack only what hangs on the record chain is promised (F17, DESIGN 6/C07): a packed
             # record has no previous-record pointer, so per oid the chain consists of the revisions in
@@ -394,6 +416,8 @@ class StorageReplayer:
         if self.kind != 'file':
             mo = dict(mo)
             mo.pop('ulog', None)
+            mo.pop('linv', None)
+            mo.pop('riter', None)
             mo['iter'] = tuple(dict(t, recs=tuple(sorted(t['recs'], key=lambda x: x['oid']))) for t in mo['iter'])
         if ltid is not None:
             mo = dict(mo, last=ltid)
